@@ -1,4 +1,5 @@
 import ScriggoV.Lemmas.HTMLEscape
+import ScriggoV.Lemmas.EscapeHtml
 /-! C24 — HTMLEscape escapes exactly the five HTML-significant characters.
 Property theorems only; the loop invariants are in `Lemmas/HTMLEscape.lean`. -/
 namespace ScriggoV.HTMLEscape
@@ -74,6 +75,33 @@ theorem htmlEscape_id_of_plain (s : Bytes) (h : ∀ c ∈ s, entity c = none) :
     simp only [spec, List.flatMap_cons] at *
     rw [ih (fun x hx => h x (List.mem_cons_of_mem _ hx))]
     simp [esc5, h c (List.mem_cons_self)]
+
+
+/-! ### entity decoding gives `s` back (second half of the property) -/
+open ScriggoV.Escape ScriggoV.Decode in
+theorem entity_caseFact : ∀ c, caseFact entity c = true := allBytes_spec (by decide +kernel)
+
+open ScriggoV.Escape in
+theorem spec_eq_simple (s : Bytes) : spec s = simple (fun c _ => ofCase (entity c)) s := by
+  induction s with
+  | nil => rfl
+  | cons c cs ih =>
+    simp only [spec, List.flatMap_cons, simple] at *
+    rw [← ih]
+    congr 1
+    unfold piece esc5 ofCase
+    cases h : entity c <;> simp [h]
+
+open ScriggoV.Escape ScriggoV.Decode in
+/-- **C24, decoding.** HTML character-reference decoding (for any named-entity table that knows
+`amp`, `lt`, `gt`; numeric references per the standard) of `HTMLEscape(s)` yields exactly `s`,
+for every byte string. -/
+theorem htmlDecode_htmlEscape (named : Named) (hstd : Named.Std named) (s : Bytes) :
+    (htmlEscape s).map (htmlDecode named) = .ok s := by
+  rw [htmlEscape_eq_spec]
+  have h := html_roundtrip_of_caseFact entity entity_caseFact named hstd s
+  rw [escLoop_flatten, List.nil_append, ← spec_eq_simple] at h
+  simp [Except.map, htmlDecode, h]
 
 -- non-vacuity / sanity: a concrete non-trivial input exercises both passes
 example : htmlEscape [97, 60, 98, 38, 34, 99, 39, 62]
